@@ -4,7 +4,7 @@
 # 2. runs the named checks (quick) against a scratch worktree of /repo HEAD with the change applied
 # 3. stores everything under /verif/seeded/<name>/
 S="$1"; W="$2"; shift 2
-name=$(basename "$S" | sed 's/^seed-//')
+name=$(basename "$S" | sed -E 's/^seed[0-9]*-//')
 out=/verif/seeded/$name; mkdir -p "$out"
 log=$out/verification.log; : > "$log"
 cd "$W" && git checkout -q -- . && git apply "$S/patch.diff" || { echo "PATCH-DOES-NOT-APPLY" | tee -a "$log"; exit 1; }
